@@ -31,7 +31,7 @@ EXPLANATION = (
     'step and one atom serves policy, registry and resolution; dynamic getattr on wire names is confined to the _unjelly_ p'
     "refix or to members of the checked class's __dict__; the taster is written only in __init__, no nested unjelly()/_Unje"
     'llier(), registries written only by the registration functions, no module-level container written from _Unjellier, eve'
-    'ry placeholder test covers all subclasses of crefutil.NotKnown; SecurityOptions defaults are empty / plain value types'
+    'ry placeholder test covers all subclasses of crefutil.NotKnown; SecurityOptions defaults are empty / plain value types; every returning path of _unjelly_reference stores the returned object in the reference table (an unguarded setdefault is not a store)'
     '. BOUNDED second layer: whole methods interpreted under modelled policies (permissive first, shared module state) on c'
     'rafted s-expressions in three shapes - nothing resolved outside the policy, nothing returned when the class is refused'
     ', only checked values instantiated, refused type atom stops everything; reference-table discipline for falsy / truthy '
